@@ -809,6 +809,13 @@ func (z *ZodObject[T, R]) validateField(value any, schema core.ZodSchema, ctx *c
 	return err
 }
 
+// IsFieldOptional reports whether Parse accepts an input without the named field of the
+// shape: the field's own Optional flag as modified by Partial and Required. A name that is
+// not in the shape is reported optional.
+func (z *ZodObject[T, R]) IsFieldOptional(field string) bool {
+	return z.isFieldOptional(z.internals.Shape[field], field)
+}
+
 // isFieldOptional reports whether a field is optional based on schema or partial state.
 func (z *ZodObject[T, R]) isFieldOptional(schema core.ZodSchema, field string) bool {
 	if schema == nil {
